@@ -1364,6 +1364,46 @@ class Flattener(object):
                     out.append(_Subst({s.target.id: e}, {}).visit(clone(st)))
             self.desugared += 1
             return self.desugar(out)
+        # if T[a if c else b]: X else: Y    ==>    if c: (if T[a]: X else: Y) else: (if T[b]: X else: Y)
+        # when everything T evaluates before the conditional expression is a constant or a name
+        if isinstance(s, ast.If):
+            ifexps = [n for n in ast.walk(s.test) if isinstance(n, ast.IfExp)]
+            if len(ifexps) == 1 and _pure(ifexps[0].test):
+                ie = ifexps[0]
+                # the chain of nodes from the test down to the conditional expression
+                chain = []
+
+                def find(n, path):
+                    if n is ie:
+                        chain.extend(path)
+                        return True
+                    return any(find(c, path + [n]) for c in ast.iter_child_nodes(n))
+                find(s.test, [])
+                on_chain = {id(n) for n in chain} | {id(ie)}
+                earlier_ok = True
+                for n in chain:
+                    if isinstance(n, (ast.BoolOp, ast.IfExp)):
+                        earlier_ok = False
+                    for c in ast.iter_child_nodes(n):
+                        if id(c) in on_chain or isinstance(c, (ast.operator, ast.cmpop, ast.unaryop, ast.boolop, ast.expr_context)):
+                            continue
+                        if not _pure(c):
+                            earlier_ok = False
+                if earlier_ok:
+                    def with_branch(which):
+                        test = clone(s.test)
+                        # locate the clone of the conditional expression by position in a walk
+                        orig = list(ast.walk(s.test))
+                        new = list(ast.walk(test))
+                        idx = next(i for i, n in enumerate(orig) if n is ie)
+                        target = new[idx]
+                        return _ReplaceNode(target, clone(getattr(ie, which))).visit(test)
+                    inner1 = ast.copy_location(ast.If(test=with_branch('body'), body=s.body, orelse=s.orelse), s)
+                    inner2 = ast.copy_location(ast.If(test=with_branch('orelse'), body=[clone(b) for b in s.body], orelse=[clone(b) for b in s.orelse]), s)
+                    self.desugared += 1
+                    outer = ast.copy_location(ast.If(test=clone(ie.test), body=[inner1], orelse=[inner2]), s)
+                    ast.fix_missing_locations(outer)
+                    return self.desugar([outer])
         # any / all over a generator: as a returned value, an assigned value, or the whole test of an if
         if isinstance(s, ast.Return) and self._anyall(s.value):
             kind, gen = self._anyall(s.value)
